@@ -68,7 +68,7 @@ Definition ch_swap (c : chain) (m : msg) : chain := c ++ [(m, false)].
 Fixpoint ch_link (c : chain) (m : msg) : chain :=
   match c with
   | [] => []
-  | (x, l) :: r => if mid x =? mid m then (x, true) :: r else (x, l) :: ch_link r m
+  | (x, l) :: r => if (mid x =? mid m) && negb l then (x, true) :: r else (x, l) :: ch_link r m
   end.
 Definition ch_deq (c : chain) : chain * option msg :=
   match c with
@@ -465,16 +465,12 @@ Definition rr_spec : mbmodel :=
      mlen := fun s => fold_right (fun kq acc => Z.of_nat (length (snd kq)) + acc) 0 s;
      mempty := fun s => match s with [] => true | _ => false end |}.
 
-(* stable priority queue: held messages in arrival order; take the first minimal one *)
-Fixpoint first_min (less : msg -> msg -> bool) (best : msg) (l : list msg) : msg :=
-  match l with
-  | [] => best
-  | x :: r => if less x best then first_min less x r else first_min less best r
-  end.
-Fixpoint remove_id (l : list msg) (i : Z) : list msg :=
-  match l with
-  | [] => []
-  | x :: r => if mid x =? i then r else x :: remove_id r i
+(* stable priority queue: held messages in arrival order; take the FIRST minimal one *)
+Fixpoint extract_min (less : msg -> msg -> bool) (x : msg) (r : list msg) : msg * list msg :=
+  match r with
+  | [] => (x, [])
+  | y :: r' => let '(b, rest) := extract_min less y r' in
+               if less b x then (b, x :: rest) else (x, r)
   end.
 Definition pq_spec (cap : option Z) (pf : Z) : mbmodel :=
   {| mstate := list msg; minit := [];
@@ -486,7 +482,7 @@ Definition pq_spec (cap : option Z) (pf : Z) : mbmodel :=
      mdeq := fun s =>
        match s with
        | [] => (s, None)
-       | x :: r => let b := first_min (pless pf) x r in (remove_id s (mid b), Some b)
+       | x :: r => let '(b, rest) := extract_min (pless pf) x r in (rest, Some b)
        end;
      mlen := fun s => Z.of_nat (length s);
      mempty := fun s => match s with [] => true | _ => false end |}.
